@@ -32,6 +32,13 @@ def normalResidual (A : Mat) (b : Vec) (r : Rat) (x : Vec) : Vec :=
 def splitByIndex (ranges : List (Nat × Nat)) (x : List α) : List (List α) :=
   ranges.map fun (b, e) => (x.drop (b - 1)).take (e + 1 - b)
 
+/-- the rows an index expression denotes (1-based), in the order it enumerates them: what `csg_imc_solve` writes into one table -/
+def selectRows [Inhabited α] (idx : List Nat) (x : List α) : List α := idx.map fun i => x.getD (i - 1) default
+
+/-- do the index lists name every row `1..n` exactly once? -/
+def isPartition (n : Nat) (idxs : List (List Nat)) : Bool :=
+  (List.range n).all fun i => (idxs.flatten.count (i + 1)) == 1 && idxs.flatten.length == n
+
 /-- consecutive ranges covering `1..n` -/
 def consecutive : Nat → List (Nat × Nat) → Bool
   | next, [] => next != 0
